@@ -244,7 +244,7 @@ class Env:
             return st.tensor([f])
         return self._mk(d, b)
 
-    def unitquat(self, name, regimes=('generic', 'identity', 'nearpi', 'small')):
+    def unitquat(self, name, regimes=('generic', 'identity', 'nearpi', 'small', 'weps')):
         """unit quaternion (x,y,z,w), shape (4,): relation w^2 = 1 - x^2 - y^2 - z^2"""
         d = self._declare(name, 'unit4', 4, regimes)
         def b(d):
@@ -604,6 +604,9 @@ def sample_decl(d, regime, rng):
         ax = [rng.gauss(0, 1) for _ in range(3)]
         n = math.sqrt(sum(a * a for a in ax)) or 1.0
         ax = [a / n for a in ax]
+        if regime == 'weps':                          # scalar part EXACTLY on the switch-over thresholds of the code (+-eps, +-eps/2, +-2 eps of float64)
+            w = rng.choice([1.0, -1.0]) * rng.choice([1.0, 1.0, 0.5, 2.0]) * 2.0 ** -52
+            return [ax[0], ax[1], ax[2], w]
         if regime == 'nearpi': ang = math.pi - rng.choice([0.0, 1e-12, 1e-6, 1e-3])
         elif regime == 'small': ang = rng.choice([1e-20, 1e-12, 1e-6])
         elif regime == 'neg': ang = rng.uniform(math.pi, 2 * math.pi)
@@ -623,6 +626,10 @@ def symvals_from_sample(decls, sample):
             if w == 0:                      # exact half turn: keep w = 0, make (x, y, z) exactly unit
                 n = mpmath.sqrt(x * x + y * y + z * z)
                 vals = [x / n, y / n, z / n, mpf(0)]
+            elif abs(w) <= mpf(10) ** -6:       # a tiny scalar part is kept EXACTLY as sampled (it may sit on a threshold); (x, y, z) take up the norm
+                n = mpmath.sqrt(x * x + y * y + z * z)
+                sc_ = mpmath.sqrt(1 - w * w) / n
+                vals = [x * sc_, y * sc_, z * sc_, w]
             else:
                 r = 1 - x * x - y * y - z * z
                 if r >= 0:
